@@ -43,7 +43,7 @@ def has_alt(t: T, kind: str, ctx: Ctx) -> bool:
     if isinstance(t, Con):
         return has_alt(t.base, kind, ctx)
     if isinstance(t, Uni):
-        return any(isinstance(a, Prim) and a.kind == kind for a in flat_alts(t))
+        return any(isinstance(a, Prim) and a.kind == kind for a in flat_alts(t, ctx))
     return isinstance(t, Prim) and t.kind == kind
 
 
@@ -144,7 +144,7 @@ def _img(t: T, v: Any, o: SOpts, ctx: Ctx) -> Any:
     if isinstance(t, EnumT):
         return dict(t.members)[v.member]
     if isinstance(t, Uni):
-        for a in flat_alts(t):
+        for a in flat_alts(t, ctx):
             if vmatches(a, v, ctx):
                 return _img(a, v, o, ctx)
         raise Unspecified("value matches no alternative")
